@@ -148,8 +148,16 @@ def _check_answers(doc, docs, srv, ids, res, notes):
         u = params.get("uri")
         d = docs.get(u)
         if d is None:
-            res.bad.append(("c20:diagnostics-for-unknown-uri", "publishDiagnostics for %s which was never opened" % u, {}))
-            continue
+            # a file the client never opened (standard library, `mod x;` siblings): the server read it from disk
+            try:
+                from urllib.parse import unquote
+                with open(unquote(u[len("file://"):]), encoding="utf-8", newline="") as f:
+                    d = docs[u] = L.Doc(f.read())
+                st["diagnosed_files_read_from_disk"] = st.get("diagnosed_files_read_from_disk", 0) + 1
+            except (OSError, UnicodeDecodeError, TypeError):
+                res.bad.append(("c20:diagnostics-for-unknown-uri",
+                                "publishDiagnostics for %s which was never opened and cannot be read" % u, {}))
+                continue
         st["diagnostic_notifications"] = st.get("diagnostic_notifications", 0) + 1
         out = []
         for dg in params.get("diagnostics") or []:
